@@ -6,14 +6,32 @@ import sys
 import types
 
 
+SIGDECO_SRC = [
+    "import inspect as _inspect",
+    "def _sigdeco(f):",
+    "    # a signature-preserving decorator: the wrapper carries __signature__ (and shares its code object)",
+    "    if _inspect.iscoroutinefunction(f):",
+    "        async def w(*a, **k):",
+    "            return await f(*a, **k)",
+    "    else:",
+    "        def w(*a, **k):",
+    "            return f(*a, **k)",
+    "    w.__name__, w.__qualname__, w.__doc__ = f.__name__, f.__qualname__, f.__doc__",
+    "    w.__signature__ = _inspect.signature(f)",
+    "    return w",
+    "",
+]
+
+
 def _cb_def(cid, cb, indent="    ", self_arg=True):
     name = cb["name"]
+    deco = [f"{indent}@_sigdeco"] if cb.get("sigdeco") else []
     if cb["async"]:
-        return [
+        return deco + [
             f"{indent}async def {name}(self, *args, **kwargs):",
             f"{indent}    return await REC.arun({cid!r}, self, args, kwargs)",
         ]
-    return [
+    return deco + [
         f"{indent}def {name}(self, *args, **kwargs):",
         f"{indent}    return REC.run({cid!r}, self, args, kwargs)",
     ]
@@ -113,6 +131,8 @@ def render_providers(spec, uid):
 def render_canonical(spec, cls_suffix="", _providers_only=False, _uid=None):
     uid = _uid or f"{spec['uid']}{cls_suffix}"
     L = list(spec.get("prelude", []))
+    if any(cb.get("sigdeco") for cb in spec["cbs"].values()):
+        L += SIGDECO_SRC
     listeners = [p for p in spec["providers"] + spec.get("late", []) if p not in ("sm", "model")]
     # listener + model classes
     for prov in listeners + ["model"]:
